@@ -6,7 +6,7 @@
    IS the parent waker of that poll, so firing it wakes that parent directly. *)
 From Coq Require Import List Arith Bool.
 Import ListNotations.
-Require Import ScanFull InstsFull Pass ObligJoin ObligMZ ObligGroups FireTotal GhostTrace NonSel C11Groups PassProofs PassC01 C04Join Live.
+Require Import ScanFull InstsFull Pass ObligJoin ObligMZ ObligGroups FireTotal GhostTrace NonSel C11Groups PassProofs PassC01 C04Join Live C08Merge LiveMerge.
 
 (* ---- selective strategy: in every state reached at or after a poll that returned Pending, a signalled child implies that the
         newest parent waker has been woken (for all sizes, child behaviours, histories of polls / wakes through any handle / drop / group ops) *)
@@ -140,6 +140,21 @@ Example C01_resolves_witness :
              (@no_mut jst) (bound scs) (join_world true false false scs []) in
   bound scs = 3 /\ results (strip (tr _ w)) = [OVals [7; 9]].
 Proof. vm_compute. split; reflexivity. Qed.
+
+(* ---- the stream form (generic part: ScanFull.next_result, for every fixed-arity instance; here merge): from the freshly constructed merge of
+        n >= 1 inputs whose scripts never panic and all reach their End, the wake-driven executor obtains the first result - an item or None -
+        within [bound scs] rounds: some round r < bound returns it (the trace of that round ends with the result), no earlier round finished or
+        unwound.  What that result is, is C08. *)
+Theorem C01_merge_first_result_under_wake_driven_executor scs :
+  (forall i, i < length scs -> ended (nth i scs []) = true) -> (forall m st, In st (nth m scs []) -> answer st <> APanic) -> 0 < length scs ->
+  let rnd := rounds mst m_n m_awaited (fun _ i => i) m_handle true true m_order m_pre_exit (fun _ => false) m_finish (fun s => s)
+               (fun s => drop_all_children (m_n s)) m_final (@no_mut mst) in
+  let w0 := merge_world true scs [] in
+  exists r, r < LiveMerge.bound scs /\ dropped _ (rnd (S r) w0) = false /\ g_retpend _ (rnd (S r) w0) = false /\
+            (forall r', r' <= r -> finished _ (rnd r' w0) = false) /\
+            exists u o, tr _ (rnd (S r) w0) = tr _ (rnd r w0) ++ u ++ [EEndR o].
+Proof. exact (merge_first_result scs). Qed.
+Print Assumptions C01_merge_first_result_under_wake_driven_executor.
 
 (* non-vacuity: a history that reaches a state satisfying all premises of C01_join: child 0 pends, its waker fires after the poll *)
 Example C01_witness :
